@@ -197,10 +197,10 @@ Qed.
 (* the same proof with other out-of-domain trace values *)
 Definition with_ood (P : ProofObj) (cur next acur anext : list F) : ProofObj :=
   mkProof (p_modulus P) (p_options P) cur next (p_ood_evals P) (p_q_trace P) (p_q_cons P)
-          (match p_aux P with Some ax => Some (mkAuxOpen acur anext (ax_rows ax)) | None => None end).
+          (match p_aux P with Some ax => Some (mkAuxOpen acur anext (ax_rows ax)) | None => None end) (p_lagrange P).
 (* the same coin outputs with other DEEP coefficients of the trace columns *)
 Definition with_deep_cc (C : Coins) (cc : list F) : Coins :=
-  mkCoins (c_aux_rands C) (cc_trans C) (cc_bnd C) (c_z C) cc (cc_deep_cons C) (c_xs C).
+  mkCoins (c_aux_rands C) (cc_trans C) (cc_bnd C) (c_z C) cc (cc_deep_cons C) (c_xs C) (c_lagrange C).
 
 (* per column: (a' - a) / (x - z) + (b' - b) / (x - z g), a / a' the two current-row values, b / b' the next-row values *)
 Definition ood_delta (x z zg : F) (cur cur' next next' : list F) : list F :=
@@ -447,9 +447,9 @@ Ltac zp_neq := let H := fresh in intro H; apply (f_equal (@zp_val P64)) in H; vm
 
 (* one main and one auxiliary column; coefficients (1, 0): the first belongs to the main column, the second to the
    auxiliary column *)
-Definition coins_d : @Coins Fe := mkCoins [] [] [] (e6 5) [e6 1; e6 0] [] [].
+Definition coins_d : @Coins Fe := mkCoins [] [] [] (e6 5) [e6 1; e6 0] [] [] None.
 Definition proof_d : @ProofObj Fe :=
-  mkProof 7 [] [e6 3] [e6 4] [] [] [] (Some (mkAuxOpen [e6 8] [e6 9] [])).
+  mkProof 7 [] [e6 3] [e6 4] [] [] [] (Some (mkAuxOpen [e6 8] [e6 9] [])) None.
 
 (* the witnesses of deep_binding_aliased_refuted ARE separated by the real index map (aux 0 |-> 1) ... *)
 Example real_map_separates :
